@@ -7,6 +7,7 @@ to enable fine-grained incremental reprocessing of changes.
 from __future__ import annotations
 
 import argparse
+import inspect
 import io
 import json
 import os
@@ -169,6 +170,10 @@ ModulePathPairs: _TypeAlias = list[ModulePathPair]
 ChangesAndRemovals: _TypeAlias = tuple[ModulePathPairs, ModulePathPairs]
 
 
+class BadRequest(Exception):
+    """A request names a known command but its arguments do not fit the command."""
+
+
 class Server:
     # NOTE: the instance is constructed in the parent process but
     # serve() is called in the grandchild (by daemonize()).
@@ -246,6 +251,9 @@ class Server:
                             command = data.pop("command")
                             try:
                                 resp = self.run_command(command, data)
+                            except BadRequest as err:
+                                resp = {"error": str(err)}
+                                command = None
                             except Exception:
                                 # If we are crashing, report the crash to the client
                                 tb = traceback.format_exception(*sys.exc_info())
@@ -292,8 +300,14 @@ class Server:
         else:
             if command not in {"check", "recheck", "run"}:
                 # Only the above commands use some error formatting.
-                del data["is_tty"]
-                del data["terminal_width"]
+                data.pop("is_tty", None)
+                data.pop("terminal_width", None)
+            try:
+                inspect.signature(method).bind(self, **data)
+            except TypeError as err:
+                raise BadRequest(f"Invalid arguments for command '{command}': {err}") from None
+            except ValueError:
+                pass  # No introspectable signature (e.g. compiled): let the call itself fail.
             ret = method(self, **data)
             assert isinstance(ret, dict)
             return ret
